@@ -200,6 +200,8 @@ public:
     CXX20_REQUIRES(ReturnsFuture<Fn, T>)
     shared_future<T> &operator<<(Fn &&fn) noexcept {
         _ptr->operator <<(std::forward<Fn>(fn));
+        //keep the shared state alive until it is resolved (as the constructors do)
+        if (!_ptr->ready()) _ptr->resolve_tracer.charge(_ptr);
         return *this;
     }
 
